@@ -850,6 +850,10 @@ static int k_accept(int fd) {
     if (!f || f->kind != F_LISTEN) { errno = EINVAL; return -1; }
     sim_yield("a");
     if (!f->naccept) { if (f->nonblock) { errno = EAGAIN; return -1; } block_on(rdy_accept, f, "A"); }
+    if (K.accept_fail_pm && cur->p->img && (int)sim_choose(CH_MISC, 1000) < K.accept_fail_pm) {
+        static const int errs[] = { EMFILE, ENFILE, ENOMEM, ECONNABORTED, ENOBUFS };
+        S.accept_fails++; errno = errs[sim_choose(CH_MISC, 5)]; return -1;   /* the connection stays in the backlog */
+    }
     SimFile *s = f->acceptq[0];
     memmove(f->acceptq, f->acceptq + 1, (size_t)(--f->naccept) * sizeof(SimFile *));
     int nfd = fd_alloc(cur->p, s);
@@ -1021,17 +1025,17 @@ static int k_kill(pid_t pid, int sig) {
 }
 
 /* ---------------- pthreads as tasks ---------------- */
-typedef struct SimMutex { void *addr; SimProc *p; SimTask *owner; int waiters; } SimMutex;
+typedef struct SimMutex { void *addr; SimProc *p; SimTask *owner; int waiters; int readers; } SimMutex;
 #define MAXMUTEX 1024
 static SimMutex mutexes[MAXMUTEX]; static int nmutex;
 static SimMutex *mutex_get(void *addr) {
     SimProc *id = img_identity(cur->p);
     for (int i = 0; i < nmutex; i++) if (mutexes[i].addr == addr && mutexes[i].p == id) return &mutexes[i];
     if (nmutex == MAXMUTEX) {   /* mutexes in short-lived heap objects: take over the slot of one that nobody holds (slots never move: waiters point at them) */
-        for (int i = 0; i < nmutex; i++) if (!mutexes[i].owner) { SimMutex *m = &mutexes[i]; m->addr = addr; m->p = id; m->waiters = 0; return m; }
+        for (int i = 0; i < nmutex; i++) if (!mutexes[i].owner && !mutexes[i].readers) { SimMutex *m = &mutexes[i]; m->addr = addr; m->p = id; m->waiters = 0; return m; }
         abort();
     }
-    SimMutex *m = &mutexes[nmutex++]; m->addr = addr; m->p = id; m->owner = NULL; m->waiters = 0;
+    SimMutex *m = &mutexes[nmutex++]; m->addr = addr; m->p = id; m->owner = NULL; m->waiters = 0; m->readers = 0;
     return m;
 }
 static bool rdy_mutex(SimTask *t) { SimMutex *m = t->wait_obj; return m->owner == NULL || m->owner->state == T_DONE || m->owner->state == T_FREE; }
@@ -1143,9 +1147,45 @@ int __real_pthread_detach(pthread_t);
 int __wrap_pthread_detach(pthread_t t) { if (!cur) return __real_pthread_detach(t); return 0; }
 int __wrap_pthread_mutex_lock(pthread_mutex_t *m) { if (!cur) return 0; return k_mutex_lock(m); }
 int __wrap_pthread_mutex_unlock(pthread_mutex_t *m) { if (!cur) return 0; return k_mutex_unlock(m); }
-int __wrap_pthread_rwlock_rdlock(pthread_rwlock_t *m) { if (!cur) return 0; return k_mutex_lock(m); }
-int __wrap_pthread_rwlock_wrlock(pthread_rwlock_t *m) { if (!cur) return 0; return k_mutex_lock(m); }
-int __wrap_pthread_rwlock_unlock(pthread_rwlock_t *m) { if (!cur) return 0; return k_mutex_unlock(m); }
+/* reader/writer locks: any number of readers or one writer; the race detector sees every lock as an acquire and every unlock as a release */
+static bool owner_alive(SimMutex *m) { return m->owner && m->owner->state != T_DONE && m->owner->state != T_FREE; }
+static bool rdy_rd(SimTask *t) { return !owner_alive(t->wait_obj); }
+static bool rdy_wr(SimTask *t) { SimMutex *m = t->wait_obj; return !owner_alive(m) && m->readers == 0; }
+int __wrap_pthread_rwlock_rdlock(pthread_rwlock_t *l) {
+    if (!cur) return 0;
+    SimMutex *m = mutex_get(l); sim_yield("m");
+    while (owner_alive(m) && m->owner != cur) { S.mutex_contended++; block_on(rdy_rd, m, "M"); }
+    m->readers++; if (sim_proc_race(cur->p)) race_acquire(cur->id, l);
+    return 0;
+}
+int __wrap_pthread_rwlock_tryrdlock(pthread_rwlock_t *l) {
+    if (!cur) return 0;
+    SimMutex *m = mutex_get(l); sim_yield("m");
+    if (owner_alive(m)) return EBUSY;
+    m->readers++; if (sim_proc_race(cur->p)) race_acquire(cur->id, l);
+    return 0;
+}
+int __wrap_pthread_rwlock_wrlock(pthread_rwlock_t *l) {
+    if (!cur) return 0;
+    SimMutex *m = mutex_get(l); sim_yield("m");
+    while ((owner_alive(m) && m->owner != cur) || m->readers > 0) { S.mutex_contended++; block_on(rdy_wr, m, "M"); }
+    m->owner = cur; if (sim_proc_race(cur->p)) race_acquire(cur->id, l);
+    return 0;
+}
+int __wrap_pthread_rwlock_trywrlock(pthread_rwlock_t *l) {
+    if (!cur) return 0;
+    SimMutex *m = mutex_get(l); sim_yield("m");
+    if (owner_alive(m) || m->readers > 0) return EBUSY;
+    m->owner = cur; if (sim_proc_race(cur->p)) race_acquire(cur->id, l);
+    return 0;
+}
+int __wrap_pthread_rwlock_unlock(pthread_rwlock_t *l) {
+    if (!cur) return 0;
+    SimMutex *m = mutex_get(l);
+    if (sim_proc_race(cur->p)) race_release(cur->id, l);
+    if (m->owner == cur) m->owner = NULL; else if (m->readers > 0) m->readers--;
+    return 0;
+}
 
 int __wrap_execlp(const char *file, const char *arg, ...) {
     char *av[16]; int n = 0; va_list ap; va_start(ap, arg);
@@ -1243,6 +1283,16 @@ SimFile *simk_fd_get(int fd) { return fd_get(fd); }
 void simk_note_syscall(const char *name, int fd) { pre_sys(name, fd, 0); }
 void simk_kill_self(int sig) { kill_self(sig); }
 void simk_proc_close_fd(SimProc *p, int fd) { if (fd >= 0 && fd < SIM_MAXFD && p->fds[fd]) { SimFile *f = p->fds[fd]; p->fds[fd] = NULL; file_unref(f); } }
+/* tasks of p that wait for a peer (socket or pipe transfer, connect, a child's death): at quiescence every peer is gone, so
+ * such a task can never run again.  Tasks parked on a condition variable, semaphore or mutex are not counted: that is how a
+ * helper thread (a reaper, a pool worker) legitimately idles. */
+int sim_proc_tasks_stuck_on_peer(SimProc *p) {
+    int n = 0;
+    for (int i = 0; i < MAXT; i++) if (tasks[i].state == T_BLOCKED && tasks[i].p == p && tasks[i].ready &&
+        (tasks[i].ready == rdy_stream_read || tasks[i].ready == rdy_stream_write || tasks[i].ready == rdy_pipe_read || tasks[i].ready == rdy_pipe_write ||
+         tasks[i].ready == rdy_connect || tasks[i].ready == rdy_zombie)) n++;
+    return n;
+}
 int sim_proc_live_tasks(SimProc *p) {
     int n = 0;
     for (int i = 0; i < MAXT; i++) if ((tasks[i].state == T_RUNNABLE || tasks[i].state == T_BLOCKED) && tasks[i].p == p) n++;
@@ -1338,7 +1388,7 @@ off_t __wrap_lseek(int fd, off_t off, int whence) {
     if (!cur) return __real_lseek(fd, off, whence);
     SimFile *f = fd_get(fd);
     if (!f) { errno = EBADF; return -1; }
-    if (f->kind != F_REG || !f->node) { errno = ESPIPE; return -1; }
+    if (f->kind != F_REG || !f->node || f->node->kind == 2) { errno = ESPIPE; return -1; }
     off_t base = whence == SEEK_SET ? 0 : whence == SEEK_CUR ? (off_t)f->pos : (off_t)f->node->data.len;
     if (base + off < 0) { errno = EINVAL; return -1; }
     f->pos = (size_t)(base + off); return (off_t)f->pos;
@@ -1349,7 +1399,8 @@ int __wrap_fstat(int fd, struct stat *st) {
     SimFile *f = fd_get(fd);
     if (!f) { errno = EBADF; return -1; }
     memset(st, 0, sizeof *st);
-    if (f->kind == F_REG && f->node) { st->st_mode = S_IFREG | 0644; st->st_size = (off_t)f->node->data.len; }
+    if (f->kind == F_REG && f->node && f->node->kind == 2) st->st_mode = S_IFIFO | 0644;
+    else if (f->kind == F_REG && f->node) { st->st_mode = S_IFREG | 0644; st->st_size = (off_t)f->node->data.len; }
     else if (f->kind == F_PIPE_R || f->kind == F_PIPE_W) st->st_mode = S_IFIFO | 0600;
     else if (f->kind == F_STREAM || f->kind == F_SOCK || f->kind == F_LISTEN) st->st_mode = S_IFSOCK | 0600;
     else st->st_mode = S_IFCHR | 0600;
@@ -1370,7 +1421,7 @@ int __wrap_pthread_mutex_trylock(pthread_mutex_t *m) {
     if (!cur) return 0;
     SimMutex *sm = mutex_get(m);
     sim_yield("m");
-    if (sm->owner && sm->owner != cur && sm->owner->state != T_DONE && sm->owner->state != T_FREE) return EBUSY;
+    if (sm->owner && sm->owner->state != T_DONE && sm->owner->state != T_FREE) return EBUSY;   /* also when the caller itself holds it */
     sm->owner = cur; if (sim_proc_race(cur->p)) race_acquire(cur->id, m);
     return 0;
 }
@@ -1447,6 +1498,9 @@ int __wrap_sem_trywait(sem_t *sm) { if (!cur) return 0; SimSync *o = sync_obj(sm
 int __wrap_pthread_spin_lock(pthread_spinlock_t *l) { if (!cur) return 0; return k_mutex_lock((void *)l); }
 int __wrap_pthread_spin_trylock(pthread_spinlock_t *l) { if (!cur) return 0; return __wrap_pthread_mutex_trylock((pthread_mutex_t *)(void *)l); }
 int __wrap_pthread_spin_unlock(pthread_spinlock_t *l) { if (!cur) return 0; return k_mutex_unlock((void *)l); }
+#include <sched.h>
+int __real_sched_yield(void);
+int __wrap_sched_yield(void) { if (!cur) return __real_sched_yield(); sim_yield("y"); return 0; }   /* a spin-wait that yields must let the lock holder run */
 pthread_t __real_pthread_self(void);
 pthread_t __wrap_pthread_self(void) { if (!cur) return __real_pthread_self(); return (pthread_t)(uintptr_t)cur; }
 int __real_sigprocmask(int, const sigset_t *, sigset_t *);
